@@ -67,8 +67,6 @@ def run(ck):
         n = max(0, min(n, cap))
         if cap > 400 and not ck.thorough:
             n = min(n, 320)
-        if n >= 255 and not lay["hdr3"]:
-            n = 254
         if n == 0 and f1:
             n = 1
         data = bytes(rng.randrange(1, 256) for _ in range(n))
